@@ -232,6 +232,19 @@ def driver_twins(chk, scheme, event, max_steps, budget):
                 ok = ok and same(x['t'], z['t']) and same(x['y'], z['y']) and same(x['h'], z['h'])
             for x, z in zip(ta['gcalls'], tb['gcalls']):
                 ok = ok and same(x[0], z[0]) and same(x[1], z[1])
+        if ok:
+            # the in-step refinement must be asked the same question by both twins: same scalars (times, step, tolerances), same end
+            # states and end derivatives, same stage matrix (its answer is an uninterpreted function of the first few only)
+            def sig(call):
+                args = call[1]
+                sc = [x for x in args if isinstance(x, Sym)]
+                ar = [x for x in args if hasattr(x, 'shape') and not isinstance(x, Sym) and getattr(x, 'dtype', None) == object]
+                return sc, ar
+            ok = len(ta['refines']) == len(tb['refines'])
+            for x, z in zip(ta['refines'], tb['refines']):
+                (s1, a1), (s2, a2) = sig(x), sig(z)
+                ok = ok and len(s1) == len(s2) and len(a1) == len(a2) and all(same(u, v) for u, v in zip(s1, s2)) and all(
+                    np.asarray(u).shape == np.asarray(v).shape and same(u, v) for u, v in zip(a1, a2))
         if ok and sa == 'done':
             for x, z in zip(ra, rb):
                 if isinstance(x, (bool, int)) and not isinstance(x, Sym):
@@ -244,9 +257,36 @@ def driver_twins(chk, scheme, event, max_steps, budget):
         else:
             nbad += 1
             if nbad <= 2:
-                chk.fail(base, 'generic and Hamiltonian drivers diverge (status %s/%s, %d/%d kernel calls)' % (sa, sb_, len(ta['steps']), len(tb['steps'])), None)
+                chk.fail(base, 'generic and Hamiltonian drivers diverge (status %s/%s, %d/%d kernel calls, %d/%d refinement calls)' % (sa, sb_, len(ta['steps']), len(tb['steps']), len(ta['refines']), len(tb['refines'])), _replay_twins())
     st = chk.absorb(ex)
     chk.note('driver twins %s: %d product paths' % (tag, st['paths']))
+
+
+def _replay_twins():
+    """Compiled build: a non-separable polynomial Hamiltonian integrated once as a Hamiltonian system (fast paths) and once as a
+    generic right-hand-side system built from the same field, for every scheme, with and without events, forward and backward."""
+    return D.HAM_PRELUDE + '''
+from hiten.algorithms.integrators.rk import AdaptiveRK, RungeKutta
+from hiten.algorithms.dynamics.rhs import create_rhs_system
+from hiten.algorithms.types.configs import EventConfig
+import numba
+hs = make_hamsys(0.7, mixed=0.4)
+gen = create_rhs_system(hs.rhs, dim=6, name="same field, generic path")
+@numba.njit
+def g1(t, y): return y[0] - 0.02
+@numba.njit
+def g2(t, y): return y[4] + 0.05
+grid = np.linspace(0.0, 6.0, 601); span = np.array([0.0, 6.0])
+bad = {}
+for name, integ, tv in (("RK4", RungeKutta(order=4), grid), ("RK6", RungeKutta(order=6), grid), ("RK8", RungeKutta(order=8), grid),
+                        ("RK45", AdaptiveRK(order=5, rtol=1e-9, atol=1e-11), span), ("DOP853", AdaptiveRK(order=8, rtol=1e-9, atol=1e-11), span)):
+    for label, kw in (("plain", {}), ("event_q1", dict(event_fn=g1, event_cfg=EventConfig(direction=0, terminal=True))), ("event_p2_up", dict(event_fn=g2, event_cfg=EventConfig(direction=1, terminal=True)))):
+        a = integ.integrate(hs, Y0.copy(), tv, **kw); b = integ.integrate(gen, Y0.copy(), tv, **kw)
+        ta, tb, ya, yb = np.asarray(a.times), np.asarray(b.times), np.asarray(a.states), np.asarray(b.states)
+        if ta.shape != tb.shape or float(np.max(np.abs(ta - tb))) > 1e-11 or float(np.max(np.abs(ya - yb))) > 1e-10:
+            bad["%s_%s" % (name, label)] = "fast path and generic path differ: |dt|=%.2e |dy|=%.2e" % (float(np.max(np.abs(ta - tb))) if ta.shape == tb.shape else -1.0, float(np.max(np.abs(ya - yb))) if ya.shape == yb.shape else -1.0)
+_verdict(bool(bad), **bad)
+'''
 
 
 def dispatch(chk):
@@ -318,6 +358,7 @@ def dispatch(chk):
 
 def main():
     chk = Check(PID)
+    chk.default_replay = _replay_twins
     import hiten.algorithms.integrators.rk as rk
     thorough = chk.tier == 'thorough'
     chk.bound(H='degree <= 3, 13 symbolic coefficients in 3 degrees of freedom (including non-separable q*p terms), symbolic state',
@@ -333,8 +374,10 @@ def main():
     ms = 3 if thorough else 2
     for scheme in ('fixed', 'rk45', 'dop853'):
         for event in (False, True):
-            # the DOP853 error-norm logic multiplies paths: one kernel call fewer in the quick tier
-            driver_twins(chk, scheme, event, ms - 1 if (scheme == 'dop853' and not thorough) else ms, 900 if thorough else 400)
+            # the DOP853 error-norm logic multiplies paths (2 kernel calls with an event: ~2000 product paths, 8-10 min): one kernel call
+            # in the quick tier, two in the thorough tier.  A divergence that needs a second accepted DOP853 step (e.g. a stale derivative
+            # handed to the in-step refinement) is therefore outside the quick bound here; the refinement-argument contract of C11 covers it.
+            driver_twins(chk, scheme, event, (2 if thorough else 1) if scheme == 'dop853' else ms, 2400 if thorough else 400)
     dispatch(chk)
     return chk.finish()
 
